@@ -1,5 +1,5 @@
 #!/usr/bin/env python3
-"""C04 mutation self-test (rounds 4 and 5): `NV_REPO=<scratch worktree> python3 notes/C04-mutants.py <name>` applies one mutant to the
+"""C04 mutation self-test (rounds 4 to 6): `NV_REPO=<scratch worktree> python3 notes/C04-mutants.py <name>` applies one mutant to the
 working tree (then run `./check C04 --tier quick`, then `git checkout -- .`); outcomes are listed in notes/C04.md"""
 import sys, re
 import os
@@ -142,5 +142,26 @@ def Y():  # revert fix 91b4476 (trace of a frame that is not built yet)
     g = "  if (num_arg != -1 && fp + num_arg + num_local - 1 > sp)\n    num_arg = -1;\n"
     assert s.count(g) == 2
     open(R + "src/simulate.c", "w").write(s.replace(g, ""))
+
+def R1():  # restore pre-pass: nesting limit off by one
+    sub("lib/lpc/object.c", "  if (nesting > MAX_SAVE_SVALUE_DEPTH)\n    return 0;", "  if (nesting > MAX_SAVE_SVALUE_DEPTH + 1)\n    return 0;")
+
+def R2():  # svalue_save_size: the depth test of the mapping branch is gone (guard on two of three paths only)
+    s = open(R + "lib/lpc/object.c").read()
+    i = s.index("    case T_MAPPING:", s.index("size_t svalue_save_size"))
+    j = s.index("too_deep_save_error ();", i)
+    k = s.index("}", j) + 1
+    a = s.index("        if (++save_svalue_depth > MAX_SAVE_SVALUE_DEPTH)", i)
+    assert a < j
+    open(R + "lib/lpc/object.c", "w").write(s[:a] + "        ++save_svalue_depth;" + s[k:])
+
+def R3():  # regexec charges without the floor of one tick (eval_cost can pass zero)
+    sub("lib/efuns/regexp.c", "    eval_cost = (used >= eval_cost - 1) ? 1 : eval_cost - used;", "    eval_cost -= used + 1;")
+
+def R4():  # set_eval_limit clamps at 0 instead of 1
+    sub("lib/efuns/unsorted.c", "      if (CONFIG_INT (__MAX_EVAL_COST__) < 1)\n        CONFIG_INT (__MAX_EVAL_COST__) = 1;", "      if (CONFIG_INT (__MAX_EVAL_COST__) < 0)\n        CONFIG_INT (__MAX_EVAL_COST__) = 0;")
+
+def R5():  # unique_mapping tests against the array limit (wrong-but-plausible variable) = revert of 115d78e in effect
+    sub("lib/lpc/mapping.c", "  if (numkeys > CONFIG_INT (__MAX_MAPPING_SIZE__))\n    mapping_too_large ();", "  if (numkeys > CONFIG_INT (__MAX_ARRAY_SIZE__))\n    mapping_too_large ();")
 
 globals()[sys.argv[1]]()
